@@ -5,6 +5,7 @@ import (
 	"os"
 	"path/filepath"
 	"strings"
+	"sync/atomic"
 	"testing"
 
 	"github.com/safing/portbase/log"
@@ -125,9 +126,19 @@ func TestPropUnpackZip(t *testing.T) {
 		var entries []zipEntry
 		for i := 0; i < n; i++ {
 			var name string
-			if rapid.IntRange(0, 2).Draw(t, "plain") == 0 {
+			switch k := rapid.IntRange(0, 9).Draw(t, "entryKind"); {
+			case k <= 2:
 				name = rapid.SampledFrom([]string{"a", "a/f", "b", "sub", "sub/x_v2-0-0", "in"}).Draw(t, "plainName")
-			} else {
+			case k == 3 && len(entries) > 0:
+				// a file below an earlier entry, which becomes a directory entry
+				prev := &entries[rapid.IntRange(0, len(entries)-1).Draw(t, "parentEntry")]
+				prev.Dir = true
+				name = strings.TrimSuffix(prev.Name, "/") + "/" + rapid.SampledFrom([]string{"f", "canary", "x_v2-0-0"}).Draw(t, "childName")
+			case k == 4:
+				// siblings of the extraction directory that share its name as a prefix
+				up := rapid.SampledFrom([]string{"..", "a/../..", "./.."}).Draw(t, "up")
+				name = up + "/" + extractionDirName + rapid.SampledFrom([]string{"-other", "2", "", "/in"}).Draw(t, "ext")
+			default:
 				name = genRelName(t, sb)
 			}
 			dir := rapid.IntRange(0, 3).Draw(t, "dirEntry") == 0
@@ -196,66 +207,95 @@ func exhaustiveLen() int {
 // EnsureAbsPath (root + "/" + name, unclean) and ScanStorage (same path).
 func TestExhaustiveNames(t *testing.T) {
 	const rootName = "fstree"
-	var total, nontrivial int64
-	for depth := 1; depth <= 3; depth++ {
-		var sb *sandbox
-		var c *checker
-		used := 0
-		fresh := func() {
-			if sb != nil {
-				sb.remove()
-			}
-			sb = newSandbox(t, rootName, depth, false)
-			c = newChecker(t, sb)
-			used = 0
+	var total, nontrivial atomic.Int64
+	t.Run("depth", func(t *testing.T) {
+		for depth := 1; depth <= 3; depth++ {
+			depth := depth
+			t.Run(fmt.Sprint(depth), func(t *testing.T) {
+				t.Parallel()
+				tot, non := exhaustiveNamesAtDepth(t, rootName, depth)
+				total.Add(tot)
+				nontrivial.Add(non)
+			})
 		}
-		fresh()
-		enumerate(exhaustiveAlphabet(rootName), exhaustiveLen(), func(segs []string) {
-			for _, trailing := range []string{"", "/"} {
-				name := strings.Join(segs, "/") + trailing
-				if used >= 40 {
-					fresh() // keep the root small: what accumulates inside is legal but slows the snapshots
-				}
-				used++
-				st := openFstree(t, sb)
-				var where place
-				for op := 0; op < numFstreeOps; op++ {
-					where = c.fstreeOp(st, op, name)
-					total++
-				}
-				for _, op := range []int{dsRelPath, dsRelDir, dsChild} {
-					c.dirStructureOp(op, name, 0o755)
-					total++
-				}
-				abs := sb.root + "/" + name
-				c.dirStructureOp(dsAbs, abs, 0o755)
-				reg := newRegistry(t, sb)
-				c.last = takeSnapshot(t, sb.top) // Initialize may (re)create <root>/tmp
-				c.scanOp(reg, abs)
-				total += 2
-				if where != inside {
-					nontrivial++
-				}
-			}
-		})
-		sb.remove()
-	}
-	stats.CaseN(total, nontrivial, "exhaustive_names")
+	})
+	stats.CaseN(total.Load(), nontrivial.Load(), "exhaustive_names")
 	stats.Exhaustive(fmt.Sprintf("all names of <=%d segments over {., .., empty, a, canary, <root>, <root>-other, <root>2} (with/without trailing separator) x root depth 1-3 x fstree Put/Get/GetMeta/Delete/Query, EnsureRelPath/RelDir/ChildDir/AbsPath, ScanStorage", exhaustiveLen()))
 }
 
-// TestExhaustiveZipEntries unpacks one archive per name (single entry, as file and as directory,
-// and behind a harmless first entry).
+func exhaustiveNamesAtDepth(t *testing.T, rootName string, depth int) (total, nontrivial int64) {
+	var sb *sandbox
+	var c *checker
+	used := 0
+	fresh := func() {
+		if sb != nil {
+			sb.remove()
+		}
+		sb = newSandbox(t, rootName, depth, false)
+		c = newChecker(t, sb)
+		used = 0
+	}
+	fresh()
+	defer func() { sb.remove() }()
+	enumerate(exhaustiveAlphabet(rootName), exhaustiveLen(), func(segs []string) {
+		for _, trailing := range []string{"", "/"} {
+			name := strings.Join(segs, "/") + trailing
+			if used >= 40 {
+				fresh() // keep the root small: what accumulates inside is legal but slows the snapshots
+			}
+			used++
+			st := openFstree(t, sb)
+			var where place
+			for op := 0; op < numFstreeOps; op++ {
+				where = c.fstreeOp(st, op, name)
+				total++
+			}
+			for _, op := range []int{dsRelPath, dsRelDir, dsChild} {
+				c.dirStructureOp(op, name, 0o755)
+				total++
+			}
+			abs := sb.root + "/" + name
+			c.dirStructureOp(dsAbs, abs, 0o755)
+			reg := newRegistry(t, sb)
+			c.last = takeSnapshot(t, sb.top) // Initialize may (re)create <root>/tmp
+			c.scanOp(reg, abs)
+			total += 2
+			if where != inside {
+				nontrivial++
+			}
+		}
+	})
+	return
+}
+
+// TestExhaustiveZipEntries unpacks one archive per name: as a single file entry, as a directory
+// entry, behind a harmless first entry, and as a directory entry followed by a file inside it.
+// The alphabet contains the extraction directory's own name and names extending it.
 func TestExhaustiveZipEntries(t *testing.T) {
 	const rootName = "store"
-	var total, nontrivial int64
+	alpha := []string{".", "..", "", "a", "tmp", extractionDirName, extractionDirName + "-other", extractionDirName + "2"}
+	var total, nontrivial atomic.Int64
 	maxLen := exhaustiveLen()
-	for depth := 1; depth <= 3; depth += 2 {
-		enumerate(exhaustiveAlphabet(rootName), maxLen, func(segs []string) {
+	t.Run("depth", func(t *testing.T) {
+		for depth := 1; depth <= 3; depth += 2 {
+			depth := depth
+			t.Run(fmt.Sprint(depth), func(t *testing.T) {
+				t.Parallel()
+				exhaustiveZipAtDepth(t, rootName, alpha, maxLen, depth, &total, &nontrivial)
+			})
+		}
+	})
+	stats.CaseN(total.Load(), nontrivial.Load(), "exhaustive_zip_entries")
+	stats.Exhaustive(fmt.Sprintf("zip archives with one generated entry name of <=%d segments over {., .., empty, a, tmp, <extraction dir>, <extraction dir>-other, <extraction dir>2} (file, directory, after a harmless entry, directory + file inside) x storage depth 1 and 3", maxLen))
+}
+
+func exhaustiveZipAtDepth(t *testing.T, rootName string, alpha []string, maxLen, depth int, total, nontrivial *atomic.Int64) {
+	{
+		enumerate(alpha, maxLen, func(segs []string) {
 			name := strings.Join(segs, "/")
-			for variant := 0; variant < 3; variant++ {
-				if variant > 0 && len(segs) == maxLen && !stats.Thorough() {
-					continue // the longest names only as a single file entry in the quick tier
+			for variant := 0; variant < 4; variant++ {
+				if variant%3 != 0 && len(segs) == maxLen && !stats.Thorough() {
+					continue // the longest names only as file and as directory+file in the quick tier
 				}
 				sb := newSandbox(t, rootName, depth, false)
 				var entries []zipEntry
@@ -264,17 +304,17 @@ func TestExhaustiveZipEntries(t *testing.T) {
 					entries = []zipEntry{{Name: name}}
 				case 1:
 					entries = []zipEntry{{Name: name, Dir: true}}
-				default:
+				case 2:
 					entries = []zipEntry{{Name: "ok"}, {Name: name}}
+				default:
+					entries = []zipEntry{{Name: name, Dir: true}, {Name: name + "/f"}}
 				}
 				if unpackOp(t, sb, entries) {
-					nontrivial++
+					nontrivial.Add(1)
 				}
-				total++
+				total.Add(1)
 				sb.remove()
 			}
 		})
 	}
-	stats.CaseN(total, nontrivial, "exhaustive_zip_entries")
-	stats.Exhaustive(fmt.Sprintf("zip archives with one generated entry name of <=%d segments over the reduced alphabet (file, directory, after a harmless entry) x storage depth 1 and 3", maxLen))
 }
